@@ -8,9 +8,52 @@ import vlib
 PID = "C06"
 
 
+# Second names for one qubit ('qubit b = a;', a qubit returned by a function, a parameter): QRuntime does not generate handle copies
+# (what they denote is C03's known finding), but whatever they denote, the flag rule is unchanged - a measured qubit is refused with a
+# located diagnostic through every name until it is reset, declarations made in between do not un-flag it, and a qubit nobody
+# measured is never refused. (program, line of the statement that must be refused or 0 = must run to completion)
+SECOND = "function second(qubit[] r) -> qubit { return r[1]; }\nfunction poke(qubit p) -> void { h(p); }\nclass Q { public qubit q; public constructor() -> Q = default; }\n"
+ALIAS_PROBES = [
+    ("measured, named twice, gate", SECOND + "function main() -> void {\n qubit a;\n measure a;\n qubit b = a;\n h(a);\n}\n", 8),
+    ("measured, named twice, later declaration, gate", SECOND + "function main() -> void {\n qubit a;\n measure a;\n qubit b = a;\n qubit c;\n h(a);\n}\n", 9),
+    ("measured, named twice, later declarations, gate through the second name", SECOND + "function main() -> void {\n qubit a;\n measure a;\n qubit b = a;\n qubit c;\n qubit[2] d;\n x(b);\n}\n", 10),
+    ("measured register element returned by a function", SECOND + "function main() -> void {\n qubit[2] reg;\n measure reg;\n qubit t = second(reg);\n qubit c;\n x(reg[1]);\n}\n", 9),
+    ("measured, named twice, later object, gate through a parameter", SECOND + "function main() -> void {\n qubit a;\n measure a;\n qubit b = a;\n Q o = new Q();\n poke(a);\n}\n", -2),
+    ("measured, named twice, measured again", SECOND + "function main() -> void {\n qubit a;\n measure a;\n qubit b = a;\n qubit c;\n measure a;\n}\n", 9),
+    ("never measured, named twice, others measured", SECOND + "function main() -> void {\n qubit a;\n qubit b = a;\n qubit c;\n measure c;\n qubit d;\n measure d;\n h(a);\n measure a;\n}\n", 0),
+    ("reset between", SECOND + "function main() -> void {\n qubit a;\n measure a;\n qubit b = a;\n reset a;\n qubit c;\n h(a);\n measure a;\n}\n", 0),
+]
+
+
+def alias_probes(out):
+    import runner
+    res = runner.run_jobs([{"id": i, "src": src, "gc": "none"} for i, (_, src, _) in enumerate(ALIAS_PROBES)])
+    bad = 0
+    for i, (name, src, line) in enumerate(ALIAS_PROBES):
+        r = res[i]
+        sh = r["shots"][0] if r.get("shots") else {"status": r["status"], "what": r.get("what", "")}
+        why = None
+        if r["status"] in ("semantic", "parse"):
+            continue             # a front end that refuses second names altogether keeps the rule trivially
+        if line == 0:
+            if sh["status"] != "ok":
+                why = "no operation touches a measured qubit, but the run ends with %s %s" % (sh["status"], sh.get("what", "").strip())
+        elif sh["status"] != "runtime" or "measured" not in sh.get("what", ""):
+            why = "an operation on a measured qubit must be refused; the run ends with %s %s" % (sh["status"], sh.get("what", "").strip())
+        elif sh.get("line", 0) <= 0 or sh.get("col", 0) <= 0:
+            why = "the refusal is not located: %s" % sh.get("what", "").strip()
+        elif line > 0 and sh["line"] != line:
+            why = "the refusal is located at line %d, the offending statement is on line %d" % (sh["line"], line)
+        if why:
+            bad += 1
+            out.violation("second name for one qubit (%s): %s" % (name, why), {"what": why, "case": name, "program": src, "result": r}, "alias%d" % i)
+    return bad
+
+
 def run(tier, seed):
     t0 = time.time()
     out = vlib.Outcome(PID)
+    nalias = alias_probes(out)
     stats, by_prop, sample = qrt_common.run(tier, seed)
     viol = by_prop.get(PID, [])
     for v in viol[:5]:
@@ -24,7 +67,7 @@ def run(tier, seed):
            "traces_validated_against_impl": stats["behaviours"],
            "behaviours_ending_in_refusal": stats["halted"], "behaviours_running_to_completion": stats["behaviours"] - stats["halted"],
            "access_paths": stats["paths"], "simulator_refusals_checked": rep["refused_checked"],
-           "samples": [sample], "behaviour_stats": stats,
+           "samples": [sample], "behaviour_stats": stats, "second_name_probes": len(ALIAS_PROBES),
            "rule": "QRuntime keeps the evaluator flag and the simulator flag as separate variables (invariant FlagsAgree, LastAgrees "
                    "checked exhaustively in small scope); in every generated behaviour each gate / cx / measure names its qubit "
                    "through one of: variable, array element, object field, @quantum function parameter, static method parameter, "
@@ -36,5 +79,5 @@ def run(tier, seed):
     vlib.write_evidence(PID, tier, seed, "model_checking", cov,
                         ["line of the diagnostic is compared only when the offending operation is written directly in main "
                          "(inside helpers the location is the helper's statement)"],
-                        time.time() - t0, len(viol) + nsim)
+                        time.time() - t0, len(viol) + nsim + nalias)
     return out.finish()
